@@ -476,6 +476,7 @@ void Misc() {
 
 // the value the non-template rapidjson Parse / ParseStream overloads parse with (R10.18 compares it with explicit template arguments)
 unsigned witness_rapidjson_default_parse_flags() { return rapidjson::kParseDefaultFlags; }
+unsigned witness_rapidjson_validate_encoding_flag() { return rapidjson::kParseValidateEncodingFlag; }
 
 } // namespace W
 
